@@ -2,6 +2,7 @@ package keyvalue
 
 import (
 	"context"
+	"errors"
 	"io"
 	"path"
 	"time"
@@ -202,6 +203,9 @@ func (f *file) ReadAt(p []byte, off int64) (n int, err error) {
 }
 
 func (f *file) ReadBlobAt(length int, off int64) (b blob.Blob, n int, err error) {
+	if off < 0 {
+		return nil, 0, &hackpadfs.PathError{Op: "readat", Path: f.path, Err: errors.New("negative offset")}
+	}
 	data, err := f.Data()
 	if err != nil {
 		return nil, 0, err
